@@ -14,7 +14,7 @@ import (
 
 func drawC14(rt *rapid.T, tier string) SrvScenario {
 	o := srvDrawOpts{backends: []string{"cdb", "cdb", "cdb", "rdb1", "rdb2"}, maxClients: 4, maxQueries: 5, maxOps: 5,
-		faults: []string{"missing", "nokey", "inject", "lowio"}, closeOp: true, periodic: true, stats: true, signals: true, proc: 3}
+		faults: []string{"missing", "nokey", "inject", "lowio"}, closeOp: true, periodic: true, stats: true, signals: true, proc: 3, cleanup: true}
 	if tier == "thorough" {
 		o.backends = []string{"cdb", "rdb1", "rdb2"}
 		o.maxQueries = 7
